@@ -795,6 +795,16 @@ func c20Replay(c *h.Ctx, tt *c20Types) (handled bool) {
 	case "decode-twice":
 		c20CheckDecodeTwice(c, c20CorpusFor(c), int(m["index"].(float64)))
 		c.Eval(string(b), true)
+	case "after-rejected":
+		var sd uint64
+		fmt.Sscan(fmt.Sprint(m["seed"]), &sd)
+		c20CheckAfterRejected(c, c20CorpusFor(c), sd)
+		c.Eval(string(b), true)
+	case "negative-bigint":
+		var sd uint64
+		fmt.Sscan(fmt.Sprint(m["seed"]), &sd)
+		c20CheckNegBig(c, sd)
+		c.Eval(string(b), true)
 	}
 	return true
 }
@@ -1204,6 +1214,17 @@ func driveC20(c *h.Ctx) error {
 			c20CheckDecodeTwice(c, corpus, idx)
 			c.Eval(fmt.Sprintf("decode-twice:%d", idx), true)
 			c.Count("decode-twice")
+		}
+
+		for i := 0; i < c.Pick(12, 100); i++ {
+			c20CheckAfterRejected(c, corpus, c.Rng.Fork(uint64(95000+i)).U64())
+			c.Eval(fmt.Sprintf("after-rejected:%d", i), true)
+			c.Count("after-rejected")
+		}
+		for i := 0; i < c.Pick(40, 400); i++ {
+			c20CheckNegBig(c, c.Rng.Fork(uint64(96000+i)).U64())
+			c.Eval(fmt.Sprintf("negative-bigint:%d", i), true)
+			c.Count("negative-bigint")
 		}
 
 		// ---- (d) child processes
